@@ -56,7 +56,8 @@ def strict_vp(d):
     return {
         "fmt": d.get("fmt"), "holder": d.get("holder"), "id": d.get("id"), "types": sorted(set(d.get("types") or [])),
         "proof": {k: pr.get(k) for k in PROOF_OPTS}, "jwt": {k: jw.get(k) for k in ("kid", "alg", "nbf", "exp", "iat")},
-        "vcs": [strict_vc(c) for c in d.get("vcs") or []],
+        # the order of embedded credentials is not a member of the document (JSON-LD: a set of graphs); compared as a multiset
+        "vcs": sorted((strict_vc(c) for c in d.get("vcs") or []), key=lambda x: json.dumps(x, sort_keys=True)),
     }
 
 
@@ -133,7 +134,11 @@ def run(ctx):
 
     def replay_text(i):
         """state-changing ops before op i + op i itself"""
-        pre = [ops_raw[k] for k in range(i) if ops[k].get("op") in ("world", "trust", "revoke")]
+        start = max([k for k in range(i) if ops[k].get("op") == "reset"] + [-1]) + 1
+        pre = [ops_raw[k] for k in range(start, i) if ops[k].get("op") in ("world", "trust", "revoke")]
+        b = bases.get(ops[i].get("base"))
+        if b and b[0] != i:
+            pre.append(ops_raw[b[0]])   # the unmodified document the mutant is compared with
         return "\n".join(pre + [ops_raw[i]]) + "\n"
 
     # ---------------- direct oracles on the implementation's outputs
@@ -210,7 +215,8 @@ def run(ctx):
         if op["op"] == "vc":
             pairs = [(d, b)]
         else:
-            pairs = list(zip(d.get("vcs") or [], b.get("vcs") or []))
+            by_id = lambda c: (str(c.get("id")), c.get("fmt") or "")
+            pairs = list(zip(sorted(d.get("vcs") or [], key=by_id), sorted(b.get("vcs") or [], key=by_id)))
         changed = [(x, y) for x, y in pairs if claims_of(x) != claims_of(y)]
         if changed:
             if all(x.get("allDefined") for x, _ in changed):
